@@ -23,6 +23,7 @@ class Ctx:
         self.notes = []
         self.t0 = time.time()
         self.max_failures_per_clause = 3
+        self._known = None
 
     def thorough(self):
         return self.tier == 'thorough'
@@ -40,8 +41,32 @@ class Ctx:
                 if len(self.samples) < 12 and s['nontrivial'] in (1, 7):
                     self.samples.append({'clause': clause, 'case': _lit(case)})
 
+    def known_id(self, clause, witness):
+        if self._known is None:
+            try:
+                root = os.path.dirname(os.path.dirname(os.path.abspath(__file__)))
+                self._known = json.load(open(os.path.join(root, 'known_findings.json'))).get('findings', [])
+                if root not in sys.path: sys.path.insert(0, root)
+            except Exception:
+                self._known = []
+        for f in self._known:
+            if f.get('property') == self.prop and f.get('clause') == clause:
+                cls = f.get('witness_class')
+                if not cls: return f['id']
+                try:
+                    from vlib import finding_classes
+                    if getattr(finding_classes, cls)(witness): return f['id']
+                except Exception:
+                    pass
+        return None
+
     def fail(self, clause, function, witness, message):
-        n = sum(1 for f in self.failures if f['clause'] == clause)
+        kid = self.known_id(clause, witness)
+        if kid is not None:
+            # a listed known finding: kept once, and it does not use up the per-clause quota of reported failures
+            if any(f.get('known') == kid for f in self.failures): return
+            self.failures.append(dict(clause=clause, function=function, witness=_lit(witness), message=str(message)[:600], known=kid)); return
+        n = sum(1 for f in self.failures if f['clause'] == clause and not f.get('known'))
         if n >= self.max_failures_per_clause: return
         self.failures.append(dict(clause=clause, function=function, witness=_lit(witness), message=str(message)[:600]))
 
